@@ -52,6 +52,19 @@ fn set_limits(width: u32, powi_limit: u64) {
     }
 }
 
+static mut FNS: Option<Vec<String>> = None;
+
+/// `--fns a,b,c` restricts the workload to some functions (operand streams stay identical)
+fn want_fn(op: &str) -> bool {
+    #[allow(static_mut_refs)]
+    unsafe {
+        match &FNS {
+            None => true,
+            Some(v) => v.iter().any(|f| f == op),
+        }
+    }
+}
+
 fn head(ev: &mut Ev, op: &str, ls: Lay, ld: Lay, x: u128) {
     ev.begin(op, ls);
     ev.arg_s(&ld.name());
@@ -67,6 +80,9 @@ where
     S::Bits: BitsIo,
     D::Bits: BitsIo,
 {
+    if !want_fn("sqrt") {
+        return;
+    }
     head(ev, "sqrt", ls, ld, x);
     ev.sep();
     rec_res::<D, _>(ev, &mut || tr::sqrt::<S, D>(fb(x)));
@@ -80,6 +96,9 @@ where
     D::Bits: Copy + ToFixed + AddAssign + BitOrAssign + ShlAssign + BitsIo,
     S::Bits: BitsIo,
 {
+    if !want_fn(op) {
+        return;
+    }
     head(ev, op, ls, ld, x);
     if op == "pow" || op == "powi" {
         ev.arg(y);
@@ -110,6 +129,9 @@ where
     T: FixedSigned + PartialOrd<I9F23> + LossyFrom<I9F23> + LossyFrom<I9F55> + LossyFrom<U0F128>,
     T::Bits: BitsIo,
 {
+    if !want_fn(op) {
+        return;
+    }
     head(ev, op, l, l, x);
     ev.sep();
     match op {
@@ -241,6 +263,11 @@ where
 fn main() {
     install_panic_hook();
     let args = Args::parse();
+    if let Some(f) = args.get("fns") {
+        unsafe {
+            FNS = Some(f.split(',').map(|s| s.to_string()).collect());
+        }
+    }
     let mut ev = Ev::new();
     if args.stdin {
         let lines = read_stdin_lines();
